@@ -22,6 +22,7 @@ def run(ctx):
     R.rule("C25-R3", "writing operator[] creates intermediates as objects, errors on non-object intermediates", floor=3)
     R.rule("C25-R4", "merge: recurse iff both are objects, else right-hand side wins", floor=3)
     R.rule("C25-R6", "json copy assignment reads its argument completely before it changes the destination (the argument may be a child of the destination)", floor=2)
+    R.rule("C25-R7", "a literal map key is never handed to the path API (which splits on '/')", floor=2)
     R.rule("C25-R5", "walkers descend only into objects: every children-map access through the walking pointer is guarded by type == object_ on that pointer", floor=10)
 
     walkers = {
@@ -101,7 +102,7 @@ def run(ctx):
     for n in rec:
         fs = cfg.facts_at(n, IN)
         objs = [k for (k, pol) in fs if pol and "isObject()" in k]
-        hask = [k for (k, pol) in fs if pol and "has(" in k]
+        hask = [k for (k, pol) in fs if pol and "object.find(" in noid(k) and "object.end()" in noid(k)]
         ok = len(objs) >= 2 and bool(hask)
         R.ob("C25-R4", ok, m.q, "merge:recurse iff both objects", m.site(n), "recursion guarded by %s" % (objs + hask))
     for n in asg:
@@ -169,6 +170,24 @@ def run(ctx):
         R.ob("C25-R6", bad is None, f.q, "argument read before the destination changes", f.site(bad[0]) if bad else "%s:%d" % (f.relfile, f.d["line"]),
              "the source is copied into locals first (%d reads, %d mutations)" % (len(reads), len(muts)) if bad is None else
              "the destination is modified and the argument is read afterwards / while its children are overwritten: `j[\"b\"] = j[\"b/a\"]` frees the map node that holds the source while copying from it (heap-use-after-free)")
+
+    # ---- R7: keys that come out of a map are literal keys ---------------------------------------------------------------------------------
+    PATH_API = ("occa::json::has", "occa::json::operator[]", "occa::json::getPathValue", "occa::json::remove", "occa::json::get")
+    for f in prog.funcs.values():
+        if f.d.get("tmpl") == "inst" or not f.q.startswith("occa::json::") or not f.d["file"].endswith("src/types/json.cpp"):
+            continue
+        keys = {v["d"] for v in f.walk() if v["k"] == "VarDecl" and kids(v) and noid(render(kids(v)[0], False)).replace(" ", "").endswith("->first")}
+        if not keys:
+            continue
+        for c in f.walk():
+            if is_call(c) and callee(c).startswith(PATH_API) and call_args(c) and strip(call_args(c)[0]).get("d") in keys and \
+                    not (c["k"] == "CXXOperatorCallExpr" and "std::map" in noid(render(kids(c)[1], False))):
+                base_is_map = c["k"] == "CXXOperatorCallExpr" and "(anonymous struct)::object" in "".join(x.get("n", "") for x in walk(kids(c)[1]))
+                if base_is_map:
+                    continue
+                R.ob("C25-R7", False, f.q, "path API %s(<map key>)" % callee(c).split("::")[-1], f.site(c),
+                     "a key taken from a map iterator is passed to a path accessor, which splits it on '/': under a key such as \"k/1\" the existing object is not found and is overwritten instead of merged")
+        R.ob("C25-R7", True, f.q, "map keys only reach the map API (%d key variables)" % len(keys), "%s:%d" % (f.relfile, f.d["line"]), "find / operator[] of the std::map", nontrivial=False)
 
 
 META = {
